@@ -123,3 +123,9 @@ package handshake
 //@   ensures [code] implies(result != nil, iserr(result, qerr.KeyUpdateError) && a.largestAcked == old(a.largestAcked))
 //@   ensures [set] implies(result == nil, a.largestAcked == pn)
 //@   modifies a.largestAcked
+
+// ---------------- Retry integrity (C13) ----------------
+//@ func GetRetryIntegrityTag
+//@   trusted AES-GCM tag over the Retry pseudo-packet (external cryptography); modelled as a function of its arguments' identity only
+//@   ensures result != nil
+//@   modifies nothing
